@@ -136,6 +136,53 @@ MUT_WORDS = ["int", "unsigned", "long", "struct", "enum", "union", "typedef", "c
              "[...]", "(*)", "/*", "*/", "//", "\\\n", "#line", "# 1 \"", ":0", ": -1", "= ...", "18446744073709551616"]
 
 
+CONST_POSITIONS = [("cdef", "int a[%s];"), ("cdef", "extern char b[2][%s];"), ("cdef", "enum e { A = %s, B };"),
+                   ("cdef", "struct s { int f : %s; int g; };"), ("cdef", "#define X %s\n"), ("cdef", "static const int K = %s;"),
+                   ("cdef", "int f(int p[%s]);"), ("cdef", "typedef int t[%s];"), ("typeof", "int[%s]"), ("typeof", "int(*)(char[%s])")]
+LITERALS = ["0x1.8p3", "0x.8p-2", "0x1p", "1.5", "1e5", "1E+3", ".5", "5.", "1e", "1e+", "1.0f", "1f", "1'000", "0b101", "0B11", "0b",
+            "0b2", "10ULL", "10lu", "10uu", "10LLU", "10lul", "0x1Fz", "0x", "0xg", "08", "09u", "1i", "1j", "1_000", "'ab'", "'\\x41'",
+            "'\\0'", "'\\\\'", "''", "L'a'", "u8'a'", "'\\n'", "0777777777777777777777777", "99999999999999999999999999", "-0", "+5", "- -3", "1u-2"]
+EXPRESSIONS = ["(int){1}", "(int)1", "(long)1+2", "(unsigned char)300", "sizeof(int)", "sizeof 1", "sizeof(struct s)", "1?2:3", "1 ? : 2",
+               "(1,2)", "1,2", "f(1)", "f()", "\"abc\"", "\"a\"[0]", "{1}", "{.a=1}", "[0]=1", "&x", "*p", "x.y", "p->q", "x++", "--x", "-x", "!1",
+               "~1", "1&&2", "1||0", "1==1", "1<2", "1<=2", "1!=2", "_Alignof(int)", "__builtin_offsetof(struct s, a)", "a[1]", "(1)", "((2))",
+               "+-+1", "__extension__ 1", "1 2", "(", ")", "()", "1+", "*", "1 << (int)2", "(int){1,2}", "(struct s){0}", "N", "A", "A+1"]
+WRAPPER_ESCAPES = [
+    ("typeof", "int); int x = (5"), ("typeof", "int); int y("), ("typeof", "int x); void f(int"), ("typeof", "int)"), ("typeof", "int);"),
+    ("typeof", "int) ; typedef int t_; void g(t_"), ("typeof", "int[3]); struct s_ { int a; } v; void h(int"), ("typeof", "int); enum e_ { A_ = (1"),
+    ("typeof", "void); int z; ("), ("typeof", ")"), ("typeof", ");"), ("typeof", "int); #define X 1\nvoid k(int"), ("typeof", "int, ...); void m(int"),
+    ("typeof", "int)); int q(("), ("typeof", "struct s1 *); struct s1 { int zz; }; void n(int"), ("typeof", "int); int x = {1, 2}; void o(int"),
+    ("typeof", "int); int x = (int){1}; void o(int"), ("typeof", "int) { } void r(int"), ("typeof", "int); ;;; void u(int"), ("typeof", "int\n);\nint w;\nvoid v(\nint"),
+    ("cdef", "struct s { int a; }; } ;"), ("cdef", "struct s { int a; } x; int b; };"), ("cdef", "enum e { A, B }; C };"), ("cdef", "int f(int a); int b);"),
+    ("cdef", "struct s { int a; }; int c; };"), ("cdef", "struct s { struct { int a; }; } ; } x;"), ("cdef", "int f(int (*g)(int); int h);"),
+    ("cdef", "enum e { A = 1 }; = 2 };"), ("cdef", "int a[3]; ];"), ("cdef", "int a = (5; int b"), ("cdef", "int f(void) { return 1; }"),
+    ("cdef", "typedef struct { int a; } t; } u;"), ("cdef", "extern \"Python\" { int f(int); } }"), ("cdef", "extern \"Python\" { int f(int); "),
+    ("cdef", "int x = {1, 2};"), ("cdef", "int x[] = {1, 2};"), ("cdef", "struct s v = {.a = 1};"), ("cdef", "char *s = \"abc\";"), ("cdef", "int y = (int){1};")]
+DIRECTIVE_NUMBERS = ["0", "1", "2", "3", "10", "99999", "2147483647", "2147483648", "18446744073709551616", "-5", "007", "0x10", "1e5", "10UL"]
+SYNTAX_ERRORS = ["int x y;", "int ;;(", "struct { ;", "int a[;", "foo bar baz;", "int f(int,);", "}", "int x = ;"]
+
+
+def structured_inputs():
+    """(api, text) inputs built from grammar pieces the byte mutator practically never assembles: text that closes the
+    'void __dummy(' wrapper of typeof() or a struct/enum/function early, numeric literal forms outside cdef's integer
+    constants and C expression kinds cdef does not evaluate - each in every position where cdef parses a constant -, and
+    syntax errors behind line directives with and without file name and with out-of-range line numbers."""
+    out = list(WRAPPER_ESCAPES)
+    for api, tpl in CONST_POSITIONS:
+        for v in LITERALS + EXPRESSIONS:
+            if tpl.startswith("#define") and "\n" in v:
+                continue
+            out.append((api, tpl % v))
+    for n in DIRECTIVE_NUMBERS:
+        for form in ("#line %s\n", "# %s\n", "#line %s \"f.h\"\n", "# %s \"f.h\" 1\n", "  #  line   %s\n"):
+            d = form % n
+            for e in SYNTAX_ERRORS[:4] if n not in ("10", "99999", "0") else SYNTAX_ERRORS:
+                out.append(("cdef", d + e))
+                out.append(("cdef", "int ok1;\n" + d + "int ok2;\n" + e + "\nint ok3;\n"))
+            out.append(("cdef", d + "int fine;\n"))
+            out.append(("typeof", d + "int"))
+    return out
+
+
 def special_strings(rng, n):
     """type strings for the compiled FFI that a byte-level mutator over ASCII seeds does not reach: strs that cannot be
     encoded as UTF-8 (lone surrogates at the start / middle / end), embedded NUL characters, non-BMP text, and long
